@@ -399,7 +399,7 @@ pub fn phases(cfg: &Cfg) -> Vec<Box<dyn Phase>> {
     vec![
         Box::new(Exhaustive { asts: all }),
         Box::new(Random {
-            n: cfg.n(80_000, 3_000_000),
+            n: cfg.n(250_000, 3_000_000),
         }),
     ]
 }
